@@ -68,4 +68,46 @@ theorem gen_recovery_checks_the_lock_owner :
     Rip.Gen.AuthRecovery.livenessOf = [Rip.Gen.AuthRecovery.lockPid] ∧
     Rip.Gen.AuthRecovery.cleanupExpects = [Rip.Gen.AuthRecovery.lockPid] := by decide
 
+/-! ### the endpoint file of a live authority -/
+
+/-- the meta step of the stale cleanup removes `meta.json` only when it carries the pid the cleanup
+was entered for: an endpoint file published by anybody else — in particular by a newcomer that became
+the authority after the stale lock was renamed away — stays, in every state and for both variants of
+the protocol -/
+theorem stale_meta_step_keeps_foreign_meta (atomic : Bool) (s : S) (i : Nat) (e p : Pid)
+    (hm : s.metaPid = some p) (hne : p ≠ e) :
+    (stepProc atomic s i (.staleMeta e)).metaPid = some p := by
+  simp [stepProc, setPc, hm, hne]
+
+/-- … and it is the only cleanup step that touches `meta.json` at all -/
+theorem cleanup_steps_keep_meta (atomic : Bool) (s : S) (i : Nat) (pc : Pc)
+    (hpc : pc = .corruptCheck ∨ pc = .corruptRename ∨ (∃ e, pc = .staleReread e) ∨ (∃ e, pc = .staleRename e)) :
+    (stepProc atomic s i pc).metaPid = s.metaPid := by
+  rcases hpc with h | h | ⟨e, h⟩ | ⟨e, h⟩ <;> subst h <;> simp only [stepProc, setPc]
+  · split
+    · split
+      · split <;> rfl
+      · rfl
+    · rfl
+  · split <;> rfl
+  · split
+    · split
+      · split <;> rfl
+      · rfl
+    · rfl
+  · split <;> rfl
+
+/-- non-vacuity: a live holder's endpoint file (pid 2) next to a recoverer that expects the dead pid 0 -/
+example :
+    let s : S := { lock := some { owner := 2, record := some 2 }, metaPid := some 2, pcs := [.staleMeta 0, .holding] }
+    (stepProc false s 0 (.staleMeta 0)).metaPid = some 2 ∧ alive s 2 = true := by decide
+
+/-- **obligation over the regenerated source**: in `try_cleanup_stale_authority_files` every rename
+or removal of `meta_path` sits under the comparison `meta.pid == expected_pid` — the guard of the
+model's `staleMeta e` step -/
+theorem gen_stale_meta_removal_guarded :
+    Rip.Gen.AuthRecovery.metaRemovalGuards ≠ [] ∧
+    Rip.Gen.AuthRecovery.metaRemovalGuards.all
+      (fun conds => conds.contains Rip.Gen.AuthRecovery.metaPidIsExpected) = true := by decide
+
 end Rip.Props.C18
